@@ -75,3 +75,18 @@ Theorem C08_fixed_point_not_finite_raises :
   mm_wire S754_nan = Raise EValue /\ (forall s, mm_wire (S754_infinity s) = Raise EOverflow).
 Proof. exact mm_not_finite. Qed.
 Print Assumptions C08_fixed_point_not_finite_raises.
+
+(* ---------------------------------------------------------------- end to end for a float field
+   For every finite binary64 argument x with 2^-126 <= |x| <= max float32: the 32-bit pattern w put on the wire,
+   read back with Flocq's IEEE-754 binary32 decoder (IEEE754.Bits.b32_of_bits), is the round-to-nearest-even
+   of x and differs from x by at most 2^-24 |x|. *)
+From Flocq Require Import IEEE754.Binary IEEE754.Bits.
+From CF Require Import C08.FloatBits.
+Theorem C08_float32_wire_decodes_to_rounding : forall s m e,
+  let x := rval s m e in
+  (bpow radix2 (-126) <= Rabs x <= max32)%R ->
+  exists w, f32_of_sf64 (S754_finite s m e) = Ok w /\ 0 <= w < 4294967296 /\
+            Binary.B2R 24 128 (b32_of_bits w) = round radix2 (FLT_exp (-149) 24) ZnearestE x /\
+            (Rabs (Binary.B2R 24 128 (b32_of_bits w) - x) <= bpow radix2 (-24) * Rabs x)%R.
+Proof. exact wire_decodes_to_rounding. Qed.
+Print Assumptions C08_float32_wire_decodes_to_rounding.
